@@ -598,6 +598,7 @@ type Frame struct {
 	blockPC       map[*ssa.BasicBlock]string
 	blockSt       map[*ssa.BasicBlock]*State
 	edgePC        map[[2]int]string
+	alias         map[string]string    // current local name -> name it had when the lock was written (renamed since)
 	inlinedHelper bool                 // frame of a repository helper executed symbolically inside the function under verification
 	applyMC       *ssa.MakeClosure     // closure value whose contract is being applied at the current call site
 	iterVis       map[ssa.Value]string // range-over-map iterator -> state key of visited set
